@@ -19,7 +19,7 @@ ASSUMPTIONS = [
     "task bodies are side-effect free apart from contexts, so 'the sequential result' is well defined",
     "CPython 3.12, Cython 3.3, qcore are trusted",
 ]
-UNIT_TIMEOUT = {"quick": 240, "thorough": 2400}
+UNIT_TIMEOUT = {"quick": 150, "thorough": 2400}
 
 COMMON = dict(
     p_item_fault=0.03,
